@@ -78,6 +78,8 @@ func (server *Server) SAdd(conn *redis.Conn, key string, members []string) (*red
 	if err != nil {
 		return nil, err
 	}
+	db.Lock()
+	defer db.Unlock()
 	_, set, err := db.GetSetRecord(key)
 	if err != nil {
 		return nil, err
@@ -90,6 +92,8 @@ func (server *Server) SMembers(conn *redis.Conn, key string) (*redis.Message, er
 	if err != nil {
 		return nil, err
 	}
+	db.Lock()
+	defer db.Unlock()
 	if !db.HasRecord(key) {
 		return redis.NewArrayMessage(), nil
 	}
@@ -111,6 +115,8 @@ func (server *Server) SRem(conn *redis.Conn, key string, members []string) (*red
 	if err != nil {
 		return nil, err
 	}
+	db.Lock()
+	defer db.Unlock()
 	if !db.HasRecord(key) {
 		return redis.NewIntegerMessage(0), nil
 	}
